@@ -4,39 +4,135 @@ import RawPanelVerif.Spec.NetSpec
 namespace RawPanelVerif.Net
 open RawPanelVerif
 
-theorem isSpace_eq_isBlank_fin :
-    ∀ i : Fin 256, isSpace (UInt8.ofNat i.val) = Spec.Net.isBlank (UInt8.ofNat i.val) := by decide +kernel
+/-! ### `strings.TrimSpace` (Unicode white space) against the reference `trim` (ASCII blanks) -/
 
-theorem isSpace_eq_isBlank (b : UInt8) : isSpace b = Spec.Net.isBlank b := by
-  have := isSpace_eq_isBlank_fin ⟨b.toNat, b.toNat_lt⟩
-  simpa using this
+theorem isBlank_cases_fin : ∀ i : Fin 256, Spec.Net.isBlank (UInt8.ofNat i.val) = true →
+    (i.val = 9 ∨ i.val = 10 ∨ i.val = 11 ∨ i.val = 12 ∨ i.val = 13 ∨ i.val = 32) := by decide +kernel
 
-theorem trimLeft_eq (l : Bytes) : trimLeft l = l.dropWhile isSpace := by
+theorem isBlank_cases (c : UInt8) (h : Spec.Net.isBlank c = true) :
+    c = 9 ∨ c = 10 ∨ c = 11 ∨ c = 12 ∨ c = 13 ∨ c = 32 := by
+  have := isBlank_cases_fin ⟨c.toNat, c.toNat_lt⟩ (by simpa using h)
+  simp only at this
+  rcases this with h | h | h | h | h | h
+  · exact Or.inl (UInt8.toNat_inj.mp (by simpa using h))
+  · exact Or.inr (Or.inl (UInt8.toNat_inj.mp (by simpa using h)))
+  · exact Or.inr (Or.inr (Or.inl (UInt8.toNat_inj.mp (by simpa using h))))
+  · exact Or.inr (Or.inr (Or.inr (Or.inl (UInt8.toNat_inj.mp (by simpa using h)))))
+  · exact Or.inr (Or.inr (Or.inr (Or.inr (Or.inl (UInt8.toNat_inj.mp (by simpa using h))))))
+  · exact Or.inr (Or.inr (Or.inr (Or.inr (Or.inr (UInt8.toNat_inj.mp (by simpa using h))))))
+
+theorem dropSpace1_blank (c : UInt8) (r : Bytes) (h : Spec.Net.isBlank c = true) :
+    RawPanelVerif.Bytes.dropSpace1 (c :: r) = some r := by
+  rcases isBlank_cases c h with h | h | h | h | h | h <;> subst h <;> rfl
+
+theorem dropSpace1Rev_blank (c : UInt8) (r : Bytes) (h : Spec.Net.isBlank c = true) :
+    RawPanelVerif.Bytes.dropSpace1Rev (c :: r) = some r := by
+  rcases isBlank_cases c h with h | h | h | h | h | h <;> subst h <;> rfl
+
+/-- no ASCII blank and no Unicode blank at the front: Go's `unicode.IsSpace` test fails on the first rune -/
+theorem dropSpace1_none (c : UInt8) (r : Bytes) (h1 : Spec.Net.isBlank c = false)
+    (h2 : Spec.Net.uniBlankFront (c :: r) = false) : RawPanelVerif.Bytes.dropSpace1 (c :: r) = none := by
+  unfold RawPanelVerif.Bytes.dropSpace1
+  split
+  all_goals (try rfl)
+  all_goals (rename_i heq; injection heq with e1 e2; subst e1; subst e2)
+  all_goals first
+    | (exfalso; revert h1; decide)
+    | (exfalso; revert h2; simp [Spec.Net.uniBlankFront, Spec.Net.uni2, Spec.Net.uni3]; done)
+    | skip
+  all_goals (
+    split
+    · rename_i hc
+      exfalso; revert h2
+      simp only [Spec.Net.uniBlankFront, Spec.Net.uni2, Spec.Net.uni3, List.getD_cons_zero, List.getD_cons_succ]
+      rcases hc with ⟨hc1, hc2⟩ | hc | hc | hc
+      · simp [hc1, hc2]
+      · subst hc; decide
+      · subst hc; decide
+      · subst hc; decide
+    · rfl)
+
+theorem dropSpace1Rev_none (c : UInt8) (r : Bytes) (h1 : Spec.Net.isBlank c = false)
+    (h2 : Spec.Net.uniBlankBackRev (c :: r) = false) : RawPanelVerif.Bytes.dropSpace1Rev (c :: r) = none := by
+  unfold RawPanelVerif.Bytes.dropSpace1Rev
+  split
+  all_goals (try rfl)
+  all_goals (rename_i heq; injection heq with e1 e2; subst e1; subst e2)
+  all_goals first
+    | (exfalso; revert h1; decide)
+    | (exfalso; revert h2; simp [Spec.Net.uniBlankBackRev, Spec.Net.uni2, Spec.Net.uni3]; done)
+    | skip
+  all_goals (
+    split
+    · rename_i hc
+      exfalso; revert h2
+      simp only [Spec.Net.uniBlankBackRev, Spec.Net.uni2, Spec.Net.uni3, List.getD_cons_zero, List.getD_cons_succ]
+      rcases hc with ⟨hc1, hc2⟩ | hc | hc | hc
+      · simp [hc1, hc2]
+      · subst hc; decide
+      · subst hc; decide
+      · subst hc; decide
+    · rfl)
+
+theorem trimLeft_clean : ∀ (l : Bytes) (n : Nat), l.length ≤ n →
+    Spec.Net.uniBlankFront (l.dropWhile Spec.Net.isBlank) = false →
+    RawPanelVerif.Bytes.trimLeft n l = l.dropWhile Spec.Net.isBlank := by
+  intro l
   induction l with
-  | nil => rfl
-  | cons b r ih => simp only [trimLeft, List.dropWhile_cons, ih]
+  | nil => intro n _ _; cases n <;> rfl
+  | cons c r ih =>
+    intro n hn hg
+    cases n with
+    | zero => simp at hn
+    | succ k =>
+      simp only [List.length_cons] at hn
+      by_cases hb : Spec.Net.isBlank c = true
+      · simp only [RawPanelVerif.Bytes.trimLeft, dropSpace1_blank c r hb, List.dropWhile_cons, hb, if_true] at hg ⊢
+        exact ih k (by omega) hg
+      · have hb' : Spec.Net.isBlank c = false := by cases h : Spec.Net.isBlank c <;> simp_all
+        simp only [List.dropWhile_cons, hb', Bool.false_eq_true, if_false] at hg ⊢
+        simp only [RawPanelVerif.Bytes.trimLeft, dropSpace1_none c r hb' hg]
 
-theorem trimRight_eq (l : Bytes) : trimRight l = (l.reverse.dropWhile isSpace).reverse := by
+theorem trimRightRev_clean : ∀ (l : Bytes) (n : Nat), l.length ≤ n →
+    Spec.Net.uniBlankBackRev (l.dropWhile Spec.Net.isBlank) = false →
+    RawPanelVerif.Bytes.trimRightRev n l = l.dropWhile Spec.Net.isBlank := by
+  intro l
   induction l with
-  | nil => rfl
-  | cons b r ih =>
-    simp only [trimRight, List.reverse_cons, List.dropWhile_append, ih]
-    by_cases h : (List.dropWhile isSpace r.reverse) = []
-    · simp only [h, List.reverse_nil, List.isEmpty_nil, if_true]
-      by_cases hb : isSpace b = true
-      · simp [hb]
-      · simp [hb]
-    · have h2 : (List.dropWhile isSpace r.reverse).reverse ≠ [] := by simpa using h
-      have h3 : (List.dropWhile isSpace r.reverse).isEmpty = false := by
-        cases hh : List.dropWhile isSpace r.reverse with
-        | nil => exact absurd hh h
-        | cons _ _ => rfl
-      simp only [h3, Bool.false_eq_true, if_false, List.reverse_append, List.reverse_cons, List.reverse_nil,
-        List.nil_append, List.cons_append]
+  | nil => intro n _ _; cases n <;> rfl
+  | cons c r ih =>
+    intro n hn hg
+    cases n with
+    | zero => simp at hn
+    | succ k =>
+      simp only [List.length_cons] at hn
+      by_cases hb : Spec.Net.isBlank c = true
+      · simp only [RawPanelVerif.Bytes.trimRightRev, dropSpace1Rev_blank c r hb, List.dropWhile_cons, hb, if_true] at hg ⊢
+        exact ih k (by omega) hg
+      · have hb' : Spec.Net.isBlank c = false := by cases h : Spec.Net.isBlank c <;> simp_all
+        simp only [List.dropWhile_cons, hb', Bool.false_eq_true, if_false] at hg ⊢
+        simp only [RawPanelVerif.Bytes.trimRightRev, dropSpace1Rev_none c r hb' hg]
 
-theorem trimSpace_eq_trim (l : Bytes) : trimSpace l = Spec.Net.trim l := by
-  have : (isSpace : UInt8 → Bool) = Spec.Net.isBlank := funext isSpace_eq_isBlank
-  simp only [trimSpace, Spec.Net.trim, trimLeft_eq, trimRight_eq, this]
+theorem edgeClean_iff (l : Bytes) : Spec.Net.edgeClean l = true ↔
+    Spec.Net.uniBlankFront (l.dropWhile Spec.Net.isBlank) = false ∧
+    Spec.Net.uniBlankBackRev ((l.dropWhile Spec.Net.isBlank).reverse.dropWhile Spec.Net.isBlank) = false := by
+  simp [Spec.Net.edgeClean, Spec.Net.trim]
+
+/-- **`strings.TrimSpace` = the reference `trim`** on lines that, once their ASCII padding is removed, neither start
+nor end with a non-ASCII white-space character -/
+theorem trimSpace_eq_trim (l : Bytes) (h : Spec.Net.edgeClean l = true) : trimSpace l = Spec.Net.trim l := by
+  obtain ⟨h1, h2⟩ := (edgeClean_iff l).mp h
+  simp only [trimSpace, RawPanelVerif.Bytes.trimSpace, Spec.Net.trim]
+  rw [trimLeft_clean l l.length (Nat.le_refl _) h1]
+  rw [trimRightRev_clean _ _ (by simp) h2]
+
+theorem ubf_append_blank (X : Bytes) (hX : X ≠ []) (c : UInt8) (hc : Spec.Net.isBlank c = true) :
+    Spec.Net.uniBlankFront (X ++ [c]) = Spec.Net.uniBlankFront X := by
+  rcases isBlank_cases c hc with h | h | h | h | h | h <;> subst h
+  all_goals (
+    match X, hX with
+    | [a], _ => simp [Spec.Net.uniBlankFront, Spec.Net.uni2, Spec.Net.uni3]
+    | [a, b], _ => simp [Spec.Net.uniBlankFront, Spec.Net.uni2, Spec.Net.uni3]
+    | a :: b :: c :: t, _ => simp [Spec.Net.uniBlankFront])
 
 theorem trim_append_blank (l : Bytes) (c : UInt8) (hc : Spec.Net.isBlank c = true) :
     Spec.Net.trim (l ++ [c]) = Spec.Net.trim l := by
@@ -87,10 +183,39 @@ theorem asciiFeedAll_eq_flatten (buf : Bytes) (segs : List Bytes) :
   | nil => rfl
   | cons seg segs ih => simp only [asciiFeedAll, List.flatten_cons, asciiFeed_append, ih]
 
-/-- the ASCII loop against the reference reader: deliveries are the trimmed LF-terminated lines, the buffer holds
-the unterminated rest -/
-theorem asciiFeed_spec (buf s : Bytes) (hb : (10 : UInt8) ∉ buf) :
-    (asciiFeed buf s).2 = (Spec.Net.splitLF (buf ++ s)).1.map Spec.Net.trim ∧
+theorem edgeClean_append_blank (l : Bytes) (c : UInt8) (hblank : Spec.Net.isBlank c = true)
+    (h : Spec.Net.edgeClean l = true) : Spec.Net.edgeClean (l ++ [c]) = true := by
+  obtain ⟨h1, h2⟩ := (edgeClean_iff l).mp h
+  simp only [Spec.Net.edgeClean, Bool.and_eq_true, Bool.not_eq_true']
+  refine ⟨?_, ?_⟩
+  · rw [List.dropWhile_append]
+    by_cases he : (List.dropWhile Spec.Net.isBlank l).isEmpty = true
+    · simp [he, hblank, Spec.Net.uniBlankFront, Spec.Net.uni2, Spec.Net.uni3]
+    · simp only [he, Bool.false_eq_true, if_false]
+      rw [ubf_append_blank _ (by intro hh; rw [hh] at he; simp at he) c hblank]; exact h1
+  · rw [trim_append_blank l c hblank]
+    simpa [Spec.Net.trim] using h2
+
+theorem edgeClean_append_blanks (l pad : Bytes) (hp : ∀ c ∈ pad, Spec.Net.isBlank c = true)
+    (h : Spec.Net.edgeClean l = true) : Spec.Net.edgeClean (l ++ pad) = true := by
+  induction pad generalizing l with
+  | nil => simpa using h
+  | cons c p ih =>
+    have : l ++ c :: p = (l ++ [c]) ++ p := by simp
+    rw [this]
+    exact ih (l ++ [c]) (fun d hd => hp d (by simp [hd])) (edgeClean_append_blank l c (hp c (by simp)) h)
+
+theorem edgeClean_append_lf (l : Bytes) (h : Spec.Net.edgeClean l = true) : Spec.Net.edgeClean (l ++ [10]) = true :=
+  edgeClean_append_blank l 10 (by decide) h
+
+/-- what the model delivers for a line (the bytes before the LF): `TrimSpace` of the line with its LF -/
+theorem model_line (l : Bytes) (h : Spec.Net.edgeClean l = true) : trimSpace (l ++ [10]) = Spec.Net.trim l := by
+  rw [trimSpace_eq_trim _ (edgeClean_append_lf l h), trim_append_blank l 10 (by decide)]
+
+/-- the ASCII loop, unconditionally: one delivery per LF-terminated line, namely `TrimSpace(line + LF)`; the buffer
+holds the unterminated rest -/
+theorem asciiFeed_lines (buf s : Bytes) (hb : (10 : UInt8) ∉ buf) :
+    (asciiFeed buf s).2 = (Spec.Net.splitLF (buf ++ s)).1.map (fun l => trimSpace (l ++ [10])) ∧
     (asciiFeed buf s).1 = (Spec.Net.splitLF (buf ++ s)).2 := by
   induction s generalizing buf with
   | nil => simp [asciiFeed, splitLF_noLF buf hb]
@@ -99,14 +224,23 @@ theorem asciiFeed_spec (buf s : Bytes) (hb : (10 : UInt8) ∉ buf) :
     · subst h10
       have := ih [] (by simp)
       simp only [List.nil_append] at this
-      have hblank : Spec.Net.isBlank 10 = true := by decide
-      simp [asciiFeed_cons, asciiStep, splitLF_line buf r hb, this.1, this.2, trimSpace_eq_trim,
-        trim_append_blank buf 10 hblank]
+      simp [asciiFeed_cons, asciiStep, splitLF_line buf r hb, this.1, this.2]
     · have hb' : (10 : UInt8) ∉ buf ++ [b] := by
         simp only [List.mem_append, List.mem_singleton, not_or]
         exact ⟨hb, fun e => h10 e.symm⟩
       have := ih (buf ++ [b]) hb'
       simp only [List.append_assoc, List.cons_append, List.nil_append] at this
       simp [asciiFeed_cons, asciiStep, h10, this.1, this.2]
+
+/-- the ASCII loop against the reference reader: on streams whose lines are `edgeClean` the deliveries are the
+trimmed LF-terminated lines -/
+theorem asciiFeed_spec (buf s : Bytes) (hb : (10 : UInt8) ∉ buf)
+    (hc : ∀ l ∈ (Spec.Net.splitLF (buf ++ s)).1, Spec.Net.edgeClean l = true) :
+    (asciiFeed buf s).2 = (Spec.Net.splitLF (buf ++ s)).1.map Spec.Net.trim ∧
+    (asciiFeed buf s).1 = (Spec.Net.splitLF (buf ++ s)).2 := by
+  obtain ⟨h1, h2⟩ := asciiFeed_lines buf s hb
+  refine ⟨?_, h2⟩
+  rw [h1]
+  exact List.map_congr_left (fun l hl => model_line l (hc l hl))
 
 end RawPanelVerif.Net
